@@ -135,6 +135,19 @@ def run(steps, dims, rho0=None, prune=1e-14):
     return branches
 
 
+def run_branches(branches, steps, dims, prune=1e-14):
+    """continue a set of branches {records: rho} through more steps"""
+    for st in steps:
+        new = {}
+        for rec, rho in branches.items():
+            for rec2, r2 in _apply(st, rec, rho, dims):
+                if abs(np.trace(r2).real) < prune:
+                    continue
+                new[rec2] = new[rec2] + r2 if rec2 in new else r2
+        branches = new
+    return branches
+
+
 def by_key(rec):
     """chronological records -> canonical per-key form ((key, (instance digits, ...)), ...) sorted by key."""
     d = {}
